@@ -1,5 +1,6 @@
 import LayerModel.Chain.Supply
 import Driver.Util
+import Driver.ProposalDiff
 namespace Driver
 open Layer.Supply
 
@@ -210,6 +211,10 @@ def runProposal (_inp : List String) (out : String) : Option Res :=
       (good, if good then note else s!"pre-block state (stable={stable} own={own} slots={slotOk} attslots={attOk} attcomplete={complete}): {rec.take 160}", evmNow, sigsNow, sentAll ++ sentNow, nT, nH,
        attsNow, asentNow, hNow, nAtt + newAtts.length)
     else acc) init
-  some { agree := true, monitor := ok, nontrivial := decide (nTamper ≥ 1 ∨ nHostile ≥ 2), model := s!"atts={nAtt}", note := note }
+  -- the derivation of the model (`Proposal.prepare`) against the real PrepareProposal, block by block
+  let diffs := (recs.filter (·.startsWith "D ")).filterMap proposalDiff
+  let nD := (recs.filter (·.startsWith "D ")).length
+  some { agree := diffs.isEmpty, monitor := ok, nontrivial := decide (nTamper ≥ 1 ∨ nHostile ≥ 2), model := s!"atts={nAtt} derived={nD}",
+         note := if note != "" then note else diffs.headD "" }
 
 end Driver
